@@ -5,7 +5,6 @@ import (
 	"errors"
 	"fmt"
 	"io"
-	"io/fs"
 	"net/url"
 	"os"
 	"path"
@@ -1412,45 +1411,98 @@ func (w *Worktree) Clean(opts *CleanOptions) error {
 		return err
 	}
 
-	root := ""
-	files, err := w.filesystem.ReadDir(root)
+	idx, err := w.r.Storer.Index()
 	if err != nil {
 		return err
 	}
-	return w.doClean(s, opts, root, files)
+
+	scope, err := w.ignoreScope()
+	if err != nil {
+		return err
+	}
+
+	// What the index knows decides how a directory is treated: the paths of
+	// the entries themselves, and the directories leading to them.
+	c := &cleaner{
+		status:      s,
+		opts:        opts,
+		entries:     make(map[string]struct{}, len(idx.Entries)),
+		trackedDirs: make(map[string]struct{}),
+	}
+	for _, e := range idx.Entries {
+		c.entries[e.Name] = struct{}{}
+		for dir := path.Dir(e.Name); dir != "."; dir = path.Dir(dir) {
+			if _, ok := c.trackedDirs[dir]; ok {
+				break
+			}
+			c.trackedDirs[dir] = struct{}{}
+		}
+	}
+
+	return w.doClean(c, scope, "")
 }
 
-func (w *Worktree) doClean(status Status, opts *CleanOptions, dir string, files []fs.DirEntry) error {
+type cleaner struct {
+	status      Status
+	opts        *CleanOptions
+	entries     map[string]struct{}
+	trackedDirs map[string]struct{}
+}
+
+// doClean removes the untracked files of dir, like git clean -f: a directory
+// with tracked files below it is cleaned in turn and never removed; a
+// directory standing where the index has a file is left alone, contents
+// included; any other directory is untracked as a whole and is only looked at
+// with opts.Dir, and then cleaned and removed once empty unless it is ignored.
+func (w *Worktree) doClean(c *cleaner, scope *gitignore.Scope, dir string) error {
+	files, err := w.filesystem.ReadDir(dir)
+	if err != nil {
+		return err
+	}
+
 	for _, fi := range files {
 		if fi.Name() == GitDirName {
 			continue
 		}
 
 		// relative path under the root
-		path := filepath.Join(dir, fi.Name())
-		if fi.IsDir() {
-			if !opts.Dir {
+		file := filepath.Join(dir, fi.Name())
+		name := filepath.ToSlash(file)
+		if !fi.IsDir() {
+			if c.status.IsUntracked(file) {
+				if err := w.filesystem.Remove(file); err != nil {
+					return err
+				}
+			}
+			continue
+		}
+
+		_, tracked := c.trackedDirs[name]
+		if !tracked {
+			if _, ok := c.entries[name]; ok || !c.opts.Dir {
 				continue
 			}
+		}
 
-			subfiles, err := w.filesystem.ReadDir(path)
-			if err != nil {
-				return err
-			}
-			err = w.doClean(status, opts, path, subfiles)
-			if err != nil {
-				return err
-			}
-		} else if status.IsUntracked(path) {
-			if err := w.filesystem.Remove(path); err != nil {
+		components := strings.Split(name, "/")
+		sub, err := scope.Descend(components, func() ([]gitignore.Pattern, error) {
+			return gitignore.DirPatterns(w.filesystem, components)
+		})
+		if err != nil {
+			return err
+		}
+		if !tracked && sub.Excluded() {
+			continue
+		}
+
+		if err := w.doClean(c, sub, file); err != nil {
+			return err
+		}
+		if !tracked {
+			if _, err := removeDirIfEmpty(w.filesystem, file); err != nil {
 				return err
 			}
 		}
-	}
-
-	if opts.Dir && dir != "" {
-		_, err := removeDirIfEmpty(w.filesystem, dir)
-		return err
 	}
 
 	return nil
